@@ -230,7 +230,16 @@ class Escape:
                     except KeyError:
                         continue
                     if f_.reaches_assuming(f_.cfg.entry, tgt, neg, expand=True):
-                        continue
+                        # alternative premise: an expression (e.g. `self._ranges[0]`) was evaluated without raising on
+                        # every path to the statement - the same fact established differently
+                        alt_ok = False
+                        if s.get("or_prior_read"):
+                            for n_ in f_.nodes():
+                                if isinstance(n_, ast.expr) and norm(n_) == s["or_prior_read"] and isinstance(getattr(n_, "ctx", None), ast.Load) and f_.before(n_, st):
+                                    alt_ok = True
+                                    break
+                        if not alt_ok:
+                            continue
                 if "stmt_re" in s:
                     # same statement up to the name of one local (named group-free regex over the normalised text)
                     if re.match(s["stmt_re"], text):
